@@ -307,4 +307,132 @@ theorem hkLive_spec (classic : Bool) (now : Nat) (l : FLink F) :
           simp only [decide_eq_false_iff_not] at h1
           omega
 
+/-! ### One link, then the whole pass -/
+
+/-- What the pass guarantees for the link `l` (→ `l'`); `w` is wire output that contains the link's
+own contribution. -/
+structure KaStep (now : Nat) (l l' : FLink F) (w : List (Nat × Codec.Bytes)) : Prop where
+  connId : l'.core.connId = l.core.connId
+  change : l'.lastKeepaliveSent = l.lastKeepaliveSent ∨
+    (l'.lastKeepaliveSent = some now ∧ (l.core.connId, (l.keepalivePacket now).2) ∈ w)
+  fresh : l.core.connected = true → l.isTimedOut now = false →
+    ∃ t, l'.lastKeepaliveSent = some t ∧ now - t < 1000
+
+theorem KaStep.mono {now : Nat} {l l' : FLink F} {w w' : List (Nat × Codec.Bytes)}
+    (h : KaStep now l l' w) (hw : ∀ x ∈ w, x ∈ w') : KaStep now l l' w' :=
+  ⟨h.connId, h.change.imp id (fun ⟨a, b⟩ => ⟨a, hw _ b⟩), h.fresh⟩
+
+/-- The keepalive-typed datagrams for conn id `cid` in a wire list. -/
+def kaCount (cid : Nat) (w : List (Nat × Codec.Bytes)) : Nat :=
+  w.countP fun x => x.1 == cid && Codec.getPacketTypeS x.2 == some 0x9000
+
+/-- Where a wire datagram of the per-link pass comes from. -/
+def WireOrigin (now : Nat) (ls : List (FLink F)) (x : Nat × Codec.Bytes) : Prop :=
+  (∃ l ∈ ls, x = (l.core.connId, (l.keepalivePacket now).2) ∧ l.core.connected = true ∧
+    l.isTimedOut now = false) ∨
+  Codec.getPacketTypeS x.2 = some 0x9200 ∨ Codec.getPacketTypeS x.2 = some 0x9201
+
+theorem reconnected_lks (l : FLink F) (now : Nat) :
+    (reconnected l now).lastKeepaliveSent = l.lastKeepaliveSent ∧
+    (reconnected l now).core.connId = l.core.connId := by
+  unfold reconnected FLink.resetForReconnect FLink.resetCoreState FLink.recordAttempt Conn.resetCore
+  split <;> exact ⟨rfl, rfl⟩
+
+theorem hkOne_spec (classic : Bool) (now : Nat) (l : FLink F) (i : Nat) (reg : Reg.Reg) :
+    KaStep now l (hkOne classic now l i reg).1 (hkOne classic now l i reg).2.2 ∧
+    (∀ x ∈ (hkOne classic now l i reg).2.2, WireOrigin now [l] x) ∧
+    (∀ cid, kaCount cid (hkOne classic now l i reg).2.2 ≤ if l.core.connId == cid then 2 else 0) := by
+  have hrl := reconnected_lks l now
+  unfold hkOne
+  cases hto : l.isTimedOut now with
+  | true =>
+    simp only [if_true]
+    cases hra : l.shouldAttemptReconnect now with
+    | true =>
+      simp only [if_true]
+      cases hp : reg.pending with
+      | none =>
+        dsimp only
+        refine ⟨⟨hrl.2, Or.inl hrl.1, fun _ h => by simp [hto] at h⟩, ?_, ?_⟩
+        · intro x hx
+          simp only [List.mem_cons, List.not_mem_nil, or_false] at hx
+          subst hx
+          exact Or.inr (Or.inr (reg2_type _))
+        · intro cid
+          have : Codec.getPacketTypeS (Reg.buildReg2 reg) = some 0x9201 := reg2_type _
+          simp [kaCount, this]
+      | some p =>
+        dsimp only
+        by_cases hpi : p = i
+        · simp only [hpi, if_true]
+          refine ⟨⟨hrl.2, Or.inl hrl.1, fun _ h => by simp [hto] at h⟩, ?_, ?_⟩
+          · intro x hx
+            simp only [List.mem_cons, List.not_mem_nil, or_false] at hx
+            subst hx
+            exact Or.inr (Or.inl (reg1_type _))
+          · intro cid
+            have : Codec.getPacketTypeS (Reg.buildReg1For reg i now).2 = some 0x9200 := reg1_type _
+            simp [kaCount, this]
+        · simp only [hpi, if_false]
+          exact ⟨⟨hrl.2, Or.inl hrl.1, fun _ h => by simp [hto] at h⟩, by simp, by simp [kaCount]⟩
+    | false =>
+      simp only [Bool.false_eq_true, if_false]
+      exact ⟨⟨rfl, Or.inl rfl, fun _ h => by simp [hto] at h⟩, by simp, by simp [kaCount]⟩
+  | false =>
+    simp only [Bool.false_eq_true, if_false]
+    obtain ⟨h1, -, h3, h4, h5, h6⟩ := hkLive_spec classic now l
+    refine ⟨⟨h1, h5, fun hc _ => h6 hc⟩, ?_, ?_⟩
+    · intro x hx
+      obtain ⟨rfl, hc⟩ := h3 x hx
+      exact Or.inl ⟨l, by simp, rfl, hc, hto⟩
+    · intro cid
+      by_cases hcid : l.core.connId = cid
+      · simp only [hcid, beq_self_eq_true, if_true]
+        exact Nat.le_trans List.countP_le_length h4
+      · have : (l.core.connId == cid) = false := by simpa using hcid
+        simp only [this, Bool.false_eq_true, if_false, Nat.le_zero, kaCount, List.countP_eq_zero]
+        intro x hx
+        obtain ⟨rfl, -⟩ := h3 x hx
+        simp [hcid]
+
+/-- **The per-link pass of housekeeping.** -/
+theorem hkLinksGo_spec (classic : Bool) (now : Nat) (ls : List (FLink F)) (i : Nat) (reg : Reg.Reg) :
+    (hkLinksGo classic now ls i reg).1.length = ls.length ∧
+    (∀ (j : Nat) l, ls[j]? = some l → ∃ l', (hkLinksGo classic now ls i reg).1[j]? = some l' ∧
+      KaStep now l l' (hkLinksGo classic now ls i reg).2.2) ∧
+    (∀ x ∈ (hkLinksGo classic now ls i reg).2.2, WireOrigin now ls x) ∧
+    (∀ cid, kaCount cid (hkLinksGo classic now ls i reg).2.2 ≤
+      2 * ls.countP (·.core.connId == cid)) := by
+  induction ls generalizing i reg with
+  | nil => simp [hkLinksGo, kaCount]
+  | cons l rest ih =>
+    rw [hkLinksGo_cons]
+    obtain ⟨o1, o2, o3⟩ := hkOne_spec classic now l i reg
+    obtain ⟨r1, r2, r3, r4⟩ := ih (i + 1) (hkOne classic now l i reg).2.1
+    dsimp only
+    refine ⟨by simp [r1], ?_, ?_, ?_⟩
+    · intro j a ha
+      cases j with
+      | zero =>
+        simp only [List.getElem?_cons_zero, Option.some.injEq] at ha
+        subst ha
+        exact ⟨_, by simp, o1.mono (fun x hx => List.mem_append_left _ hx)⟩
+      | succ j =>
+        simp only [List.getElem?_cons_succ] at ha
+        obtain ⟨l', hl', hk⟩ := r2 j a ha
+        exact ⟨l', by simpa using hl', hk.mono (fun x hx => List.mem_append_right _ hx)⟩
+    · intro x hx
+      rcases List.mem_append.mp hx with hx | hx
+      · rcases o2 x hx with ⟨m, hm, h⟩ | h
+        · exact Or.inl ⟨m, by simp at hm; simp [hm], h⟩
+        · exact Or.inr h
+      · rcases r3 x hx with ⟨m, hm, h⟩ | h
+        · exact Or.inl ⟨m, List.mem_cons_of_mem _ hm, h⟩
+        · exact Or.inr h
+    · intro cid
+      have h1 := o3 cid
+      have h2 := r4 cid
+      simp only [kaCount, List.countP_append, List.countP_cons] at h1 h2 ⊢
+      split at h1 <;> rename_i hc <;> simp only [hc, if_true, if_false, Bool.false_eq_true] <;> omega
+
 end Srtla.Keepalive
